@@ -1066,7 +1066,7 @@ class SymByteArray(list):
     def __eq__(self, o):
         if isinstance(o, (SymBytes, builtins.bytes, bytearray, SymByteArray)):
             return sym_bytes_eq(SymBytes(list(self)), SymBytes(list(o)) if not isinstance(o, SymBytes) else o)
-        return list.__eq__(self, o)
+        return False          # a bytearray never equals a list, tuple or anything else (this object stands for a bytearray)
 
     def __ne__(self, o):
         r = self.__eq__(o)
